@@ -392,7 +392,11 @@ func (sc *SidecarScope) collectImportedServices(ps *PushContext, configNamespace
 				Name:      vs.Name,
 			}.HashCode())
 			v := vs.Spec.(*networking.VirtualService)
-			for h, ports := range virtualServiceDestinationsFilteredBySourceNamespace(v, configNamespace) {
+			destinations := virtualServiceDestinationsFilteredBySourceNamespace(v, configNamespace)
+			// Visit the destination hosts in lexical order, not in map order: the order in which services are
+			// appended is the order of the generated clusters.
+			for _, h := range slices.Sort(maps.Keys(destinations)) {
+				ports := destinations[h]
 				byNamespace := ps.ServiceIndex.HostnameAndNamespace[host.Name(h)]
 				// Default to this hostname in our config namespace, provided it is exported to us: exportTo can hide
 				// a service even from its own namespace ("~" or a list of other namespaces)
